@@ -648,6 +648,20 @@ def s_fresh_serial(P, E):
             if s_["k"] == "assign" and len(s_["lhs"]) > 1 and "*" in s_["lhs"] and \
                     any(rk == "param" and rd == 1 and path[:1] == ("serial",) for (rk, rd, path) in b.place_prov(s_["lhs"])):
                 stores += 1
+    for i in sorted(b.reach):
+        for s_ in b.blocks[i]["stmts"]:
+            if s_["k"] == "assign" and len(s_["lhs"]) > 1 and "*" in s_["lhs"] and \
+                    any(rk == "param" and rd == 1 and path[:1] == ("serial",) for (rk, rd, path) in b.place_prov(s_["lhs"])):
+                rv = s_["rv"]
+                leaves = set()
+                for o in [rv[k] for k in ("a", "b", "op") if isinstance(rv.get(k), dict)]:
+                    leaves |= b.value_sources(b.operand_prov(o))
+                foreign = [t for t in leaves if t[0] != "const" and not (t[0] == "param" and t[1] == 1 and t[2][:1] == ("serial",))]
+                if foreign:
+                    r.violate((b.nid, "serial not advanced from itself"),
+                              "the new value of the serial counter derives from %s, not only from the counter: a key can "
+                              "repeat while its earlier holder is still registered" % sorted(b.term_name(t) for t in foreign),
+                              body=b, line=s_.get("line"))
     if not stores:
         r.violate((b.nid, "serial never advanced"), "the serial counter is never incremented: every upstream gets the same key", body=b)
     return r
